@@ -109,6 +109,8 @@ T_C07 == P_C07 /\ T_C07wire /\ T_C07cs /\ T_C07cap
 
 (* ---------------- C08 ---------------- *)
 T_C08size == [][Live => /\ Ev.obs.npit = Ev.obs.ents /\ Ev.obs.ncs = Ev.obs.csn
+                        /\ Ev.obs.rpit = Ev.obs.ents /\ Ev.obs.rcs = Ev.obs.csn      \* what the thread reports (status datasets read this)
+                        /\ Ev.obs.tpit = Ev.obs.ents /\ Ev.obs.tcs = Ev.obs.csn      \* what the table reports
                         /\ Ev.obs.tokmap = Ev.obs.ents /\ Ev.obs.lru = Ev.obs.csn
                         /\ Ev.obs.ents = Cardinality(DOMAIN pit') /\ Ev.obs.csn = Cardinality(DOMAIN cs')]_tvars
 \* no dead branches: tree nodes = prefixes of names of live PIT entries and cached Data
